@@ -683,6 +683,13 @@ def apply_patch(text, p, fired, where):
         # whitespace-flexible anchor: any run of whitespace and line comments (or none) between the anchor's tokens matches
         rx = re.compile(r"(?:\s|//[^\n]*\n)*".join(re.escape(tok) for tok in old.split()))
         n = len(rx.findall(text))
+        if "nth" in p:
+            ms = list(rx.finditer(text))
+            if len(ms) <= p["nth"]:
+                raise Undecided(f"{p.get('rule', 'R4')} patch anchor {old!r} (flex) has no occurrence #{p['nth']} in {where}")
+            m = ms[p["nth"]]
+            fired.append(p.get("rule", "R4"))
+            return text[:m.start()] + new + text[m.end():]
         if (cnt == "any" and n == 0) or (cnt != "any" and n != cnt):
             raise Undecided(f"{p.get('rule', 'R4')} patch anchor {old!r} (flex) occurs {n} times in {where}, expected {cnt}")
         fired.append(p.get("rule", "R4"))
